@@ -161,7 +161,7 @@ def _check(prop, tier, seed, py, modname, plan, scratch, ev_path, t0):
         out = os.path.join(scratch, 'r%04d.json' % n)
         tasks.append({'kind': 'lemma', 'job': j, 'out': out,
                       'cmd': [py, '-m', 'vfw.lemma', j.get('module', modname), json.dumps(j), out],
-                      'env': _child_env({}, seed=seed), 'kill_after': j.get('timeout', 300), 'order': (0, -j.get('timeout', 300))})
+                      'env': _child_env({}, seed=seed), 'kill_after': j.get('timeout', 300), 'order': (-1, -j.get('timeout', 300))})
     tasks.sort(key=lambda t: t['order'])
     budget = plan.get('wall_budget', DEFAULT_BUDGET.get(tier))
     if os.environ.get('VF_WALL_BUDGET'):
@@ -213,7 +213,8 @@ def _check(prop, tier, seed, py, modname, plan, scratch, ev_path, t0):
                                                           'job': j, 'violation': v})
             elif st == 'holds':
                 pass
-            elif st == 'inconclusive':
+            elif st == 'inconclusive' or st in ('skipped', 'killed'):
+                # not decided within the tier's wall budget: reported as not exhausted, never as held
                 all_exhausted = False
             else:
                 harness_errors.append('lemma %s: %s' % (j.get('name'), r.get('error') or r.get('reason') or st))
